@@ -18,7 +18,7 @@ CHECK = 'check_case'
 SHARD_SIZE = 200
 RULE = ('datatype trees (depth<=2 quick, <=3 thorough; floats/scaled with unit incl. "$", fmtstr, resolutions; enums with '
         'names, also inside containers; TextType; structs with optional members in any order; scaled limits on and off '
-        'the grid; the lossy shapes blob(maxbytes=0) and string(minchars>0, maxchars unlimited)) x four operations: '
+        'the grid; the formerly lossy shapes blob(maxbytes=0) and string(minchars>0, maxchars unlimited)) x four operations: '
         '(rebuild) export_datatype -> json round trip -> get_datatype -> export again + validate/import probes on both; '
         '(copy) copy() of constructor-built and of rebuilt trees + identity traversal + mutation of the copy + probes; '
         '(compat) a.compatible(b) for b = widened/narrowed variant of a, a = variant of b, independent pairs, a itself '
@@ -426,33 +426,6 @@ def _tree(case, obs):
     return None
 
 
-def f_blob_maxbytes_zero(case, obs, f):
-    """a BLOBType with maxbytes == 0 somewhere in the tree: maxbytes is not exported, rebuild/copy raise"""
-    d = _tree(case, obs)
-    return (d is not None and f['class'] in ('rebuild-fails', 'copy-fails')
-            and any(n['t'] == 'blob' and n['max'] == 0 for n in _walk(d)))
-
-
-def f_string_minchars_unlimited(case, obs, f):
-    """a StringType with minchars > 0 and unlimited maxchars: maxchars is not exported and the rebuilt type takes
-    maxchars = minchars"""
-    d = _tree(case, obs)
-    return (d is not None
-            and f['class'] in ('datainfo-changed', 'rebuilt-validates-differently', 'copy-datainfo-changed',
-                               'copy-validates-differently')
-            and any(n['t'] == 'string' and n['min'] > 0 and n['max'] == X.UNL and not n.get('text') for n in _walk(d)))
-
-
-def f_int_into_enum_or_bool(case, obs, f):
-    return (case['kind'] == 'compat' and f['class'] == 'compat-incomplete'
-            and any(x['t'] == 'int' and y['t'] in ('enum', 'bool') for x, y in _pairs(obs['xa'], obs['xb'])))
-
-
-def f_bool_into_number(case, obs, f):
-    return (case['kind'] == 'compat' and f['class'] == 'compat-unsound'
-            and any(x['t'] == 'bool' and y['t'] in ('int', 'float', 'scaled') for x, y in _pairs(obs['xa'], obs['xb'])))
-
-
 def f_struct_optional_into_mandatory(case, obs, f):
     def bad(x, y):
         return x['t'] == y['t'] == 'struct' and any(n in x['optional'] and n not in y['optional']
@@ -468,10 +441,6 @@ def f_float_relres_above_one(case, obs, f):
 
 
 FINDING_CLASSIFIERS = {
-    'blob-maxbytes-zero-not-exported': f_blob_maxbytes_zero,
-    'string-minchars-without-maxchars': f_string_minchars_unlimited,
-    'int-into-enum-or-bool-always-raises': f_int_into_enum_or_bool,
-    'bool-into-number-ignores-limits': f_bool_into_number,
     'struct-optional-into-mandatory': f_struct_optional_into_mandatory,
     'float-target-relres-above-one': f_float_relres_above_one,
 }
@@ -755,7 +724,7 @@ def gen_cases(seed, tier):
                       'probes': _probes(rng, d, 5), 'wprobes': _probes(rng, d, 3, wire=True)})
     for _ in range(n[1]):
         d = X.rand_xt(rng, rng.randint(0, depth))
-        via = 'rebuilt' if rng.random() < 0.3 and not _lossy(d) else 'ctor'
+        via = 'rebuilt' if rng.random() < 0.3 else 'ctor'
         cases.append({'kind': 'copy', 'd': d, 'via': via, 'probes': _probes(rng, d, 5)})
     for _ in range(n[2]):
         a = X.rand_xt(rng, rng.randint(0, depth), special=False)
@@ -785,10 +754,6 @@ def gen_cases(seed, tier):
             m, how = _mutate_datainfo(rng, j)
             cases.append({'kind': 'get', 'how': how, 'pname': pname, 'json': X.tag_json(_jsonable(m)), 'plain': None})
     return cases
-
-
-def _lossy(d):
-    return any((n['t'] == 'blob' and n['max'] == 0) for n in _walk(d))
 
 
 def shrink(case):
